@@ -409,6 +409,8 @@ def row_alphabet(d, q):
 
 
 def nontrivial(c):
+    if c['k'] == 'nonecol':
+        return True
     if c['k'] == 'sf':
         return len(c['cells']) >= 2
     if c['k'] == 'row':
@@ -474,6 +476,13 @@ def cases(ctx):
         cells = [rng.choice(SF_SPECIALS + ['p:' + t for t in SF_PLAIN]) if rng.random() < 0.4 else
                  qatom(rng.choice(SF_TEXTS) if rng.random() < 0.5 else rand_text(rng, ',"')) for _ in range(rng.randint(1, 6))]
         yield {'k': 'sf', 'cells': cells}
+    # a str column with missing values (None): object dtype, exported as the token `None`, decoded back by the StoreFilter
+    for _ in range(150 if quick else 2500):
+        n = rng.randint(2, 5)
+        words = [''.join(rng.choice(ALPHA_WORD) for _ in range(rng.choice([1, 2, 2, 3, 3, 4, 4, 5, 7]))) for _ in range(n)]
+        holes = rng.sample(range(n), rng.randint(1, n - 1))
+        yield {'k': 'nonecol', 'words': words, 'holes': sorted(holes), 'd': rng.choice([',', '\t', '|', ';']),
+               'extra': rng.choice(['int', 'float', 'none']), 'pos': rng.randint(0, 1)}
     # (ii) frames through delimited text, (iii) structural routes
     nframes = 900 if quick else 8000
     for i in range(nframes):
@@ -537,6 +546,8 @@ def search(ctx):
 # ------------------------------------------------------------------ model lines
 
 def model_lines(c):
+    if c['k'] == 'nonecol':
+        return []
     if c['k'] == 'row':
         return [f'csv.rt {qatom(c["d"])} {qatom(c["q"])} {wire_texts(c["fs"])}']
     if c['k'] == 'rowblock':
@@ -584,7 +595,44 @@ def evaluate(ctx, c, outs):
         return eval_frame(ctx, c, outs)
     if c['k'] == 'sf':
         return eval_sf(ctx, c, outs)
+    if c['k'] == 'nonecol':
+        return eval_nonecol(ctx, c)
     return eval_struct(ctx, c)
+
+
+def eval_nonecol(ctx, c):
+    """missing values in a str column: None cells are written as the token `None` and must come back as None,
+    the other cells as the same texts, whatever the width of the texts around them"""
+    import io
+    import static_frame as sf
+    fails = []
+    n = len(c['words'])
+    vals = [None if i in c['holes'] else w for i, w in enumerate(c['words'])]
+    col = np.array(vals, dtype=object)
+    items = [('s', col)]
+    if c['extra'] == 'int':
+        items.insert(c['pos'], ('n', np.arange(n) * 3 - 2))
+    elif c['extra'] == 'float':
+        items.insert(c['pos'], ('n', np.arange(n) * 1.5))
+    else:
+        items.insert(c['pos'], ('t', np.array([f'w{i}x' for i in range(n)])))
+    f = sf.Frame.from_items(items, index=[f'r{i}' for i in range(n)])
+    ctx.count('nonecol_frames')
+    ctx.count(f'nonecol_maxlen_{min(max(len(w) for i, w in enumerate(c["words"]) if i not in c["holes"]), 5)}')
+    buf = io.StringIO()
+    try:
+        f.to_delimited(buf, delimiter=c['d'])
+        buf.seek(0)
+        g = sf.Frame.from_delimited(buf, delimiter=c['d'], index_depth=1)
+    except Exception as ex:
+        return [Failure('oracle', f'str column with None {vals} (delimiter {c["d"]!r}): round trip raised {type(ex).__name__}: {ex}', c)]
+    back = g['s'].values
+    if back.dtype.kind != 'O' or back.tolist() != vals:
+        fails.append(Failure('oracle', f'str column with None {vals} (delimiter {c["d"]!r}, next to a {c["extra"]} column) came back as {back!r}', c))
+    other = [k for k, _ in items if k != 's'][0]
+    if g[other].values.tolist() != f[other].values.tolist() or g.index.values.tolist() != f.index.values.tolist():
+        fails.append(Failure('oracle', f'frame with a None-holding str column: column {other!r} / index came back as {g[other].values.tolist()} / {g.index.values.tolist()}', c))
+    return fails
 
 
 def clean_field(f):
@@ -675,6 +723,18 @@ def eval_sf(ctx, c, outs):
     dec_arr = [sf_to_wire(x) for x in SFD.to_type_filter_array(obj).tolist()] if len(vals) else []
     if dec_arr != dec:
         fails.append(Failure('corr', f'StoreFilter.to_type_filter_array {dec_arr} != element-wise {dec} on {cells}', c))
+    # the same table on fixed-width str arrays (what genfromtxt hands to from_delimited): every width from the
+    # longest text of the group up, so that a token exactly as wide as the array is exercised
+    strs = [v for v in vals if isinstance(v, str)]
+    if strs:
+        wmax = max(1, max(len(x) for x in strs))
+        for width in (wmax, wmax + 1, wmax + 3):
+            arr = np.array(strs, dtype=f'<U{width}')
+            got = [sf_to_wire(x) for x in SFD.to_type_filter_array(arr).tolist()]
+            exp = [sf_to_wire(SFD.to_type_filter_element(x)) for x in strs]
+            ctx.count('storefilter_str_arrays')
+            if got != exp:
+                fails.append(Failure('oracle', f'StoreFilter.to_type_filter_array on a <U{width} array {strs} gave {got}, element-wise decoding gives {exp}', c))
     tokens = set().union(SFD.to_nan, SFD.to_nat, SFD.to_none, SFD.to_posinf, SFD.to_neginf)
     for w, v in zip(cells, vals):
         # oracle: decode(encode(v)) == v on the domain of storefilter_default_inverse (not NaT, strings that are no tokens)
